@@ -156,6 +156,7 @@ def run(facts, rep, tier):
     ctxscope(F, rep, chk)
     nameeq(F, rep, chk)
     subspan(F, rep)
+    coherent(F, rep, chk)
 
     # ---- 6 ARGTYPES --------------------------------------------------------------------------------------
     cc = F.one_fn("check_call")
@@ -530,3 +531,124 @@ def subspan(F, rep):
 def derived_of(g, l):
     from engines import derived_locals
     return derived_locals(g, l)
+
+
+# ---------------------------------------------------------------------------------------------------------------
+def coherent(F, rep, chk):
+    """COHERENT — a condition is required to be `bool` by `ensure_bool_condition(ty, span, compatible, errors)`: the
+    type that is tested and the span that is blamed must belong to the SAME expression — `ty` is the result of
+    `check_expr(e)` and `span` is `e.span` for one and the same `e`. Testing the type of one expression while pointing
+    at another means some condition is never tested at all (an `elif n:` with `n: int` slips through)."""
+    n = 0
+    for p in sorted(chk):
+        f = F.fns[p]
+        ords = 0
+        for bi, t in f.calls():
+            if not (callee_name(t) or "").endswith("ensure_bool_condition") or len(t["args"]) < 2:
+                continue
+            ords += 1
+            n += 1
+            ty_root = expr_root_of_type(f, t["args"][0])
+            sp_root = expr_root_of_span(f, t["args"][1])
+            ok = ty_root is not None and sp_root is not None and ty_root == sp_root
+            # the `compatible` flag must have been computed from the same type
+            cp_root = "n/a"
+            if len(t["args"]) > 2 and op_place(t["args"][2]) is not None:
+                cl = op_place(t["args"][2])["l"]
+                for _ in range(6):
+                    dd = f.single_def(cl)
+                    if dd is None:
+                        defs = [(b2, t2) for b2, t2 in f.calls() if not t2["d"]["p"] and t2["d"]["l"] == cl]
+                        dd = (defs[0][0], -1, "call", defs[0][1]) if len(defs) == 1 else None
+                    if dd is None:
+                        break
+                    if dd[2] == "call":
+                        if (callee_name(dd[3]) or "").endswith("types_compatible") and len(dd[3]["args"]) > 1:
+                            cp_root = expr_root_of_type(f, dd[3]["args"][1])
+                        break
+                    if dd[2] == "assign" and dd[3]["r"] in ("use", "cast") and op_place(dd[3]["o"]) is not None:
+                        cl = op_place(dd[3]["o"])["l"]
+                    else:
+                        break
+            if ok and cp_root not in ("n/a", None) and cp_root != ty_root:
+                ok = False
+                sp_root = "%s; the compatibility flag was computed from the type of %s" % (sp_root, cp_root)
+            import panicinv
+            inst = "%s#%d" % (panicinv.fn_short(p), ords)
+            rep.oblige("COHERENT", inst, ok or ty_root is None or sp_root is None,
+                       sample={"rule": "COHERENT", "fn": p, "line": t.get("ln"), "type_of": str(ty_root),
+                               "span_of": str(sp_root)})
+            if ty_root is not None and sp_root is not None and not ok:
+                rep.add(Finding("COHERENT", "COHERENT|%s" % inst,
+                                "ensure_bool_condition is given the type of one expression (%s) and the span of "
+                                "another (%s): the second expression's type is never required to be bool, so a "
+                                "non-bool condition passes the checker and fails in rustc"
+                                % (ty_root, sp_root), file=f.file, line=t.get("ln"), fn=p))
+    rep.floor("COHERENT", "ensure_bool_condition call sites", n, 4)
+
+
+def _root_place(f, pl, depth=8):
+    """(local, field-path) of the user-level place a temporary refers to"""
+    for _ in range(depth):
+        flds = tuple(e[3] for e in pl["p"] if e[0] == "f")
+        if pl["l"] in f.names or pl["l"] <= f.argc:
+            return (f.names.get(pl["l"], "_%d" % pl["l"]), flds)
+        d = f.single_def(pl["l"])
+        if d is None or d[2] != "assign":
+            return (f.names.get(pl["l"], "_%d" % pl["l"]), flds)
+        rv = d[3]
+        if rv["r"] in ("ref", "cfd"):
+            inner = rv["p"]
+        elif rv["r"] in ("use", "cast") and op_place(rv["o"]) is not None:
+            inner = op_place(rv["o"])
+        else:
+            return (f.names.get(pl["l"], "_%d" % pl["l"]), flds)
+        pl = {"l": inner["l"], "p": list(inner["p"]) + [e for e in pl["p"]]}
+    return None
+
+
+def expr_root_of_type(f, o):
+    """the expression whose check_expr(..) result this operand is"""
+    pl = op_place(o)
+    if pl is None:
+        return None
+    cur = pl["l"]
+    for _ in range(8):
+        d = f.single_def(cur)
+        if d is None:
+            # a named local assigned once by a call (let cond_ty = self.check_expr(..))
+            defs = [(bi, t) for bi, t in f.calls() if not t["d"]["p"] and t["d"]["l"] == cur]
+            if len(defs) == 1:
+                d = (defs[0][0], -1, "call", defs[0][1])
+            else:
+                return None
+        if d[2] == "call":
+            t = d[3]
+            if (callee_name(t) or "").endswith("::check_expr") and len(t["args"]) > 1:
+                a = op_place(t["args"][1])
+                return _root_place(f, a) if a is not None else None
+            return None
+        if d[2] != "assign":
+            return None
+        rv = d[3]
+        if rv["r"] in ("ref", "cfd"):
+            cur = rv["p"]["l"]
+        elif rv["r"] in ("use", "cast") and op_place(rv["o"]) is not None:
+            cur = op_place(rv["o"])["l"]
+        else:
+            return None
+    return None
+
+
+def expr_root_of_span(f, o):
+    """the expression whose `.span` this operand is"""
+    pl = op_place(o)
+    if pl is None:
+        return None
+    r = _root_place(f, pl)
+    if r is None:
+        return None
+    name, flds = r
+    if flds and flds[-1] == "span":
+        return (name, flds[:-1])
+    return None
